@@ -12,6 +12,13 @@ checks = {
  "C06": ("datastream+session", "DataStream.tla with a budget (TLC: never more than N, failure only when longer, a fitting message handled as without limit); reader sweep over budgets; end-to-end sizes N-2..N+2 around three limits via DATA in SMTP and LMTP; SIZE= and over-limit BDAT edges of the session graph replayed",
          "limits {4,5,9} end to end, budgets 1..12 at reader level, limit 8 with chunk sizes {0,6} in the session graph",
          "TLA+ model checking (TLC) + automaton-driven sweep + session-graph edge replay"),
+ "C04": ("session", "TLC checks reply-count and enhanced-code properties on the whole bounded graph; every edge is replayed lock-step with a strict RFC 5321 4.2 reply parser; random paths of the graph are re-sent fully pipelined (one segment) and in random segmentations and the complete reply stream and callback sequence compared; recorded walks validated by TLC; a server that stops replying is reported when a goroutine dump proves the handler blocked inside the library",
+         "verdict attribution under slow deliveries of aborted transfers (schedules) is the Bdat.tla family; reply text is checked for syntax and, for LMTP, the recipient prefix", SESS),
+ "C07": ("session+datastream", "SmtpServer.tla has explicit cut actions (disconnect inside a DATA message / inside a BDAT chunk) and abandon actions (RSET, QUIT, EHLO, MAIL during a transfer); TLC checks that no cut step has a positive reply or an end-of-file at the backend; every such edge is replayed, and whole conversations are cut at EVERY octet offset with the expected outcome looked up in the graph; the real reader is also run on every truncated class stream",
+         "cut = half-close by the peer; idle timeout and Server.Close variants belong to the lifecycle family (C20); backends in the cut corpus propagate reader errors",
+         "TLA+ model checking (TLC) + edge replay + exhaustive cut-point sweep with graph-lookup oracle"),
+ "C08": ("session", "TLC checks at-most-one Logout, all sessions logged out at close, nothing after close, no callback on a logged-out session; every closing edge (QUIT, 4th error, over-long line, backend panic, EOF, cuts) is replayed with three commands pipelined behind it; STARTTLS Logout edges on the TLS family; conversations cut at every octet with a goroutine census after each; recorded walks validated by TLC",
+         "Logout under concurrent Server.Close and the BDAT 0 + QUIT delivery window are in the lifecycle/Bdat families (C20)", SESS),
  "C09": ("session", "Server half: SmtpServer.tla instance over TLS {none, STARTTLS, implicit} x AllowInsecureAuth x backend {auth, no auth}; TLC checks the AUTH step properties; all edges replayed with a recording SASL mechanism (octets compared); recorded walks validated by TLC",
          "client half (Client.Auth) is covered by the Client.tla family once built; exchanges of up to 2 challenges; one representative per response class plus binary octets", SESS),
  "C10": ("session", "Server half: every pre-STARTTLS history class of the bounded model (greeted, authenticated, mid-transaction, mid-BDAT) x {clean, plaintext injected behind the command}; real TLS handshakes over the in-memory pipe; Logout/NewSession/TLS state compared per edge; walks validated by TLC",
